@@ -29,6 +29,7 @@ func runC05(p *eng.Prog, r *eng.Report, tier string) {
 	lockPairing(c, "C05.2", []string{"xmpp.Session.out", "xmpp.Session.in"}, map[string]bool{"xmpp.(*Session).TokenWriter": true, "xmpp.(*Session).TokenReader": true})
 	closerTypestate(c, "C05.2")
 	c05DeferWriter(c)
+	closerFresh(c, "C05.2")
 	c05Send(c)
 	c05Marshal(c)
 	c05MarshalAdapters(c)
@@ -38,31 +39,65 @@ func runC05(p *eng.Prog, r *eng.Report, tier string) {
 	c02RawConn(c)
 }
 
-// handleInputStream defers Close of its deferWriter and of its reader.
-func c05DeferWriter(c *cx) {
-	f := c.fn("C05.2", "", "handleInputStream")
+// handleInputStream closes its deferWriter and its reader on every path from
+// their creation to a return (a deferred Close counts from the defer statement).
+func c05DeferWriter(c *cx) { c05DeferWriterAs(c, "C05.2") }
+
+func c05DeferWriterAs(c *cx, id string) {
+	f := c.fn(id, "", "handleInputStream")
 	if f == nil {
 		return
 	}
 	g := f.Graph()
 	want := map[string]bool{"TokenReader": false, "deferWriter": false}
-	for _, d := range g.Defers {
-		sel, ok := ast.Unparen(d.Call.Fun).(*ast.SelectorExpr)
-		if !ok || sel.Sel.Name != "Close" {
+	for _, d := range g.AllDefs() {
+		if d.RHS == nil || d.Var == nil {
 			continue
 		}
-		pt, _ := g.Where(d)
-		n := f.Norm(sel.X, &pt)
-		t := eng.TypeStr(f.Info().TypeOf(sel.X))
-		if strings.Contains(n, "Session.TokenReader[") {
-			want["TokenReader"] = true
+		kind := ""
+		n := f.Norm(d.RHS, &d.At)
+		t := eng.TypeStr(f.Info().TypeOf(d.RHS))
+		switch {
+		case strings.HasPrefix(n, "xmpp.Session.TokenReader["):
+			kind = "TokenReader"
+		case strings.Contains(t, "deferWriter"):
+			if _, isLit := ast.Unparen(d.RHS).(*ast.UnaryExpr); isLit {
+				kind = "deferWriter"
+			}
 		}
-		if strings.Contains(t, "deferWriter") {
-			want["deferWriter"] = true
+		if kind == "" {
+			continue
 		}
+		want[kind] = true
+		v := d.Var
+		isClose := func(q eng.Point, nd ast.Node) bool {
+			found := false
+			ast.Inspect(nd, func(x ast.Node) bool {
+				if cl, ok := x.(*ast.CallExpr); ok {
+					if sel, ok := ast.Unparen(cl.Fun).(*ast.SelectorExpr); ok && sel.Sel.Name == "Close" {
+						if id, ok := ast.Unparen(sel.X).(*ast.Ident); ok && f.Info().Uses[id] == v {
+							found = true
+						}
+					}
+				}
+				return !found
+			})
+			return found
+		}
+		bad := ""
+		for _, rs := range g.Returns {
+			rp, _ := g.Where(rs)
+			if g.Reachable(g.After(d.At), rp, nil, isClose) {
+				bad = "return at " + c.p.Pos(rs.Pos()) + " reachable without Close of the " + kind
+				break
+			}
+		}
+		c.r.Check(id, f, "Close of the "+kind, "O: the locks taken for a handler invocation are released on every exit: Close is deferred or called on every path from the creation to a return", d.Node.Pos(), bad == "", bad)
 	}
 	for k, v := range want {
-		c.r.Check("C05.2", f, "deferred Close of the "+k, "O: the locks taken for a handler invocation are released on every exit", f.Pos(), v, "no deferred Close of the "+k)
+		if !v {
+			c.r.Check(id, f, "Close of the "+k, "O: the locks taken for a handler invocation are released on every exit: Close is deferred or called on every path from the creation to a return", f.Pos(), false, "no "+k+" is created in handleInputStream")
+		}
 	}
 }
 
